@@ -117,7 +117,17 @@ AndDefaults ==
   {PAnd(<<f, g, f>>, "ctor", FALSE, VNone) : f \in Filling, g \in Telling} \cup
   {POr(<<PAnd(<<f, PLit(VInt(1))>>, "ctor", FALSE, VNone), g>>, "ctor", FALSE, VNone) : f \in Filling, g \in Telling}
 
-P1 == Bools(Ls) \cup AndDefaults \cup {PNot(c, "ctor") : c \in Leaves} \cup Seqs(Ls) \cup Sets1 \cup
+\* element-wise means every element: list patterns that separate values which are == (and hash
+\* alike) but of different type -- 1 / True, 0 / False -- met by lists mixing them in every order
+\* (an element equal to one already accepted must still be checked itself)
+NotBool == PNot(PType("bool"), "ctor")
+EqMix == {PList(<<PType("bool")>>), PList(<<NotBool>>), PList(<<PType("bool"), PLit(VStr("a"))>>),
+          PList(<<PAnd(<<PType("int"), NotBool>>, "ctor", FALSE, VNone)>>), PList(<<NotBool, PType("str")>>),
+          PList(<<PM("==", VInt(1)), PType("bool")>>)}
+EqAtoms == {VInt(0), VInt(1), VBool(TRUE), VBool(FALSE)}
+EqLists == {VC("list", s) : s \in [1..2 -> EqAtoms] \cup [1..3 -> EqAtoms]}
+
+P1 == Bools(Ls) \cup AndDefaults \cup EqMix \cup {PNot(c, "ctor") : c \in Leaves} \cup Seqs(Ls) \cup Sets1 \cup
       {p \in DictPats(KeysP, Ls, KeysPP, ValsP) : DistinctKeys(p)}
 
 \* a selection of depth-1 patterns used as children at depth 2
@@ -176,6 +186,7 @@ Shallow(p) == p \in Leaves \/ (p.op \in {"and", "or", "not"} /\ \A i \in 1..Len(
 \* the root decides): of those, only the targets of depth <= 1 are enumerated
 TargetsFor(p) ==
   IF Shallow(p) THEN Atoms0 \cup Depth1
+  ELSE IF p \in EqMix THEN Atoms0 \cup Depth1 \cup EqLists
   ELSE IF p \in AndDefaults        \* every child asks for a dict (or is indifferent to what is inside others)
        THEN Atoms0 \cup Depth1 \cup {t \in Targets : PyIsInstance(t, "dict")}
   ELSE IF p.op \in {"list", "set", "frozenset", "tuple", "dict"}
